@@ -410,7 +410,8 @@ def run(ctx):
         "rigid": (2, 2, 4), "rigid#scaled": (2, 2, 4), "s2s": (2, 3, 5), "s2sf": (2, 3, 4), "mesh": (3, 3, 5), "rod": (2, 3, 5),
     }
     if ctx.thorough:
-        plan = {"rigid": (3, 3, 5), "s2s": (2, 4, 6), "s2sf": (2, 4, 5), "mesh": (3, 4, 6), "rod": (2, 4, 6)}
+        # (a pool of three rigid-body states makes the replayed graph explode to millions of walks: deeper histories over two states instead)
+        plan = {"rigid": (2, 3, 5), "rigid#scaled": (2, 3, 5), "s2s": (2, 4, 6), "s2sf": (2, 4, 5), "mesh": (3, 4, 6), "rod": (2, 4, 6)}
     for famkey, (pool, gops, dops) in plan.items():
         famname, _, variant = famkey.partition("#")
         fam = FAMILIES[famname](rng, pool, variant) if variant else FAMILIES[famname](rng, pool)
@@ -436,6 +437,9 @@ def run(ctx):
         tlc.require_ok(rg, f"Memo {famname} graph")
         g = tlc.parse_dot(dot + ".dot")
         walks, ncov = tlc.edge_cover_walks(g, max_len=gops + 1)
+        if len(walks) > 40000:          # keep the replay within minutes: a seeded sample of the edge cover
+            rng.shuffle(walks)
+            walks = walks[:40000]
         for (start, walk) in walks:
             sts = [g.nodes[start]] + [g.nodes[g.edges[e][1]] for e in walk]
             replay_beh(fam, sts, ctx, rng, counters)
